@@ -23,9 +23,12 @@ IMPORTS = ("From CV Require Import Base.Cmp Base.LinAlg Model.C10_Conj Model.C10
            "From Coq Require Import QArith Reals String List.\nFrom Interval Require Import Tactic.\nImport ListNotations.\nOpen Scope string_scope.")
 
 # ENCLOSURE cases: the R-valued likelihood formulas the theorems are about, evaluated on the case's inputs by `interval`
-ENC_TAC = ("unfold lik_gmrf, gmrf_logpdf, lik_gauss_cov, lik_gauss_prec, from_cov_scalar, from_prec_scalar, gaussian_of, gaussian_logpdf, "
-           "Rdot, Rmatvec, Rvsub, Rnormsq, Rmscale, Rident, Rvscale, normsq, gmrf_code_rank; "
-           "cbn [dot matvec vsub vscale map seq unit_vec vzero repeat length INR Nat.sub]; interval with (i_prec 80).")
+ENC_TAC = ("unfold lik_gmrf, gmrf_logpdf, lik_gauss_cov, lik_gauss_prec, lik_gauss_precvec, lik_gauss_covvec, lik_gauss_covdiag, "
+           "from_cov_scalar, from_prec_scalar, from_prec_vector, from_cov_vector, diag_of, Rdiagmat, Rsum, gaussian_of, gaussian_logpdf, "
+           "lik_lmrf, lmrf_logpdf, lmrf_like_logpdf, norm1, approx_rate_R, approx_penalty, phi_delta, approx_delta, "
+           "Rdot, Rmatvec, Rvsub, Rnormsq, Rmscale, Rident, Rvscale, normsq, gmrf_code_rank, gmrf_nullity; "
+           "cbn [dot matvec vsub vscale map seq unit_vec vzero repeat length INR Nat.sub Nat.pow Nat.mul Nat.add nth fold_right]; "
+           "interval with (i_prec 90).")
 
 
 def cr(x):
@@ -150,6 +153,7 @@ def build_gamma(pr, pname):
     elif decl == "py_int": g = Gamma(int(a), int(b), name=pname)
     elif decl == "geometry_1": g = Gamma(a, b, geometry=1, name=pname)
     elif decl == "list1": g = Gamma([a], [b], name=pname)
+    elif decl == "zero_d": g = Gamma(np.array(a), np.array(b), name=pname)      # 0-d arrays: Distribution.dim itself raises IndexError
     elif decl == "arrays": g = Gamma(np.full(k, a), np.full(k, b), name=pname)
     elif decl == "geometry_int": g = Gamma(a, b, geometry=k, name=pname)
     elif decl == "geometry_obj": g = Gamma(a, b, geometry=cuqi.geometry.Continuous1D(k), name=pname)
@@ -323,17 +327,19 @@ def target_logd(target, s):
     return float(np.ravel(np.asarray(v, dtype=float))[0])
 
 
-def fit_gamma(target):
-    """(k, r, resid, scale) with log target(s) = (k-1) ln s - r s + c solved at s=1,2,4; resid at 0.5 and 3; None if non-finite"""
-    f = [target_logd(target, s) for s in FIT_PTS]
+def fit_gamma(target, base=1.0):
+    """(k, r, resid, scale) with log target(s) = (k-1) ln s - r s + c solved at s = base*(1,2,4); resid at base*(0.5, 3); None if
+    non-finite.  `base` only chooses WHERE the target's logd is evaluated (at the scale 1/rate of the drawn Gamma, so that the
+    three terms are of comparable size whatever the scale of the data); it cannot bias the fitted values."""
+    f = [target_logd(target, base * t) for t in FIT_PTS]
     if not all(math.isfinite(x) for x in f):
         return None
-    d1, d2 = f[1] - f[0], f[2] - f[1]          # a ln2 - r ,  a ln2 - 2 r
-    r = d1 - d2
+    d1, d2 = f[1] - f[0], f[2] - f[1]          # a ln2 - r base ,  a ln2 - 2 r base
+    rb = d1 - d2
     a = (2 * d1 - d2) / math.log(2.0)
-    c = f[0] + r
-    resid = max(abs(a * math.log(s) - r * s + c - fv) for s, fv in zip(FIT_PTS[3:], f[3:]))
-    return a + 1, r, resid, 1 + max(abs(x) for x in f)
+    c = f[0] + rb - a * math.log(base)
+    resid = max(abs(a * math.log(base * t) - rb * t + c - fv) for t, fv in zip(FIT_PTS[3:], f[3:]))
+    return a + 1, rb / base, resid, 1 + max(abs(x) for x in f)
 
 
 def formula_gamma(target, alpha, beta):
@@ -349,8 +355,9 @@ def formula_gamma(target, alpha, beta):
 def oracle_sample(target, spec, shape_obs, rate_obs):
     """-> dict(shape_fail, rate_fail, form_fail, k, r, how)"""
     alpha, beta = float(Fraction(spec["prior"]["alpha"])), float(Fraction(spec["prior"]["beta"]))
-    fit = fit_gamma(target)
-    out = {"how": "fit of the target's logd at s=1,2,4 (form checked at 0.5,3)"}
+    base = 1.0 / rate_obs if (rate_obs > 0 and math.isfinite(rate_obs)) else 1.0
+    fit = fit_gamma(target, base)
+    out = {"how": "fit of the target's logd at s = (1,2,4)/rate (form checked at (0.5,3)/rate)"}
     if fit is None:
         if spec["family"] == "gmrf":
             k, r = formula_gamma(target, alpha, beta)
@@ -362,8 +369,8 @@ def oracle_sample(target, spec, shape_obs, rate_obs):
         k, r, resid, scale = fit
     out["k"], out["r"] = k, r
     out["form_fail"] = None if resid <= 1e-9 * scale else "target logd is not of the form (k-1) ln s - r s + c (residual %.3g)" % resid
-    out["shape_fail"] = None if abs(shape_obs - k) <= 1e-8 * (1 + abs(k)) else "Gamma shape %.12g but the target's density implies %.12g" % (shape_obs, k)
-    out["rate_fail"] = None if abs(rate_obs - r) <= 1e-9 * (1 + abs(r)) else "Gamma rate %.15g but the target's density implies %.15g" % (rate_obs, r)
+    out["shape_fail"] = None if abs(shape_obs - k) <= 1e-8 * (1 + abs(k)) + 1e-12 * scale else "Gamma shape %.12g but the target's density implies %.12g" % (shape_obs, k)
+    out["rate_fail"] = None if abs(rate_obs - r) <= 1e-9 * abs(r) + 1e-12 * scale / base else "Gamma rate %.15g but the target's density implies %.15g" % (rate_obs, r)
     return out
 
 
@@ -379,7 +386,7 @@ def sig_shape(iface, spec, shape_obs, k, m, rank):
 
 
 def sig_rate(iface, spec, rate_obs, r, v2):
-    if spec["family"] == "gmrf" and spec["bc"] != "zero" and r is not None and abs((rate_obs - r) - float(SQRT_EPS) * v2 / 2) <= 1e-9 * (1 + abs(r)):
+    if spec["family"] == "gmrf" and spec["bc"] != "zero" and r is not None and abs((rate_obs - r) - float(SQRT_EPS) * v2 / 2) <= 2e-9 * abs(r):
         return "%s|GMRF:bc=periodic,neumann|rate:sqrt-eps-regularisation" % site(iface)
     return "%s|%s|gamma-rate-not-target-implied" % (site(iface), spec["family"])
 
@@ -399,10 +406,33 @@ def bc_coq(bc):
     return {"zero": "BZero", "periodic": "BPeriodic", "neumann": "BNeumann"}[bc]
 
 
-def sample_cases(ctx, spec, iface, cell):
-    """run one conjugate draw, return the (shape, rate) cases"""
+_RULE = {}
+
+
+def probe_rank_rule():
+    """which GMRF rank rule the tree implements: today's (dim-1 for every periodic/neumann field) or the one of
+    fixes/C20_gmrf_rank_rule.diff (order 0: nullity 0; order 2 neumann: 2^physical_dim; else 1).  Probed on two fields;
+    any other combination is reported as today's rule (and the rank cells then disagree)."""
+    if "rule" not in _RULE:
+        from cuqi.distribution import GMRF
+        with QUIET:
+            r0 = GMRF(np.zeros(5), 1.0, bc_type="periodic", order=0)._rank
+            r2 = GMRF(np.zeros(6), 1.0, bc_type="neumann", order=2)._rank
+        _RULE["rule"] = "RuleNullity" if (r0, r2) == (5, 4) else "RuleDimMinus1"
+        _RULE["probe"] = (int(r0), int(r2))
+    return _RULE["rule"]
+
+
+def sample_cases(ctx, spec, iface, cell, reuse=None):
+    """run one conjugate draw, return the (shape, rate) cases.  reuse = an existing experimental sampler object whose target is
+    replaced (what Gibbs does on every sweep) instead of constructing a fresh one"""
     target = build_target(spec)
-    sampler = construct(iface, target)
+    if reuse is not None:
+        with QUIET:
+            reuse.target = target
+        sampler = reuse
+    else:
+        sampler = construct(iface, target)
     val, ga, ncalls, scripted, acc = draw(iface, sampler)
     dist = target.likelihood.distribution
     with QUIET:
@@ -458,11 +488,13 @@ def sample_cases(ctx, spec, iface, cell):
     elif orc and (orc["form_fail"] or orc["shape_fail"]):
         fail = (orc["form_fail"] or orc["shape_fail"]) + " [" + orc["how"] + "]"
         sig = sig_shape(iface, spec, shape_obs, orc["k"], m_code, rank) if not orc["form_fail"] else "%s|%s|target-not-gamma-form" % (site(iface), fam)
-    use_rank = bool(has_density and fail is None and rank != m_code)       # repaired tree: m = distribution's rank
-    rank_ok = "true"
-    if fam == "gmrf":
-        rank_ok = "check_rank %s %s %s" % (bc_coq(spec["bc"]), cnat(n), cnat(rank))
-    expr = "check_shape %s %s %s %s %s %s && %s && %s" % (lik_kind(fam), cbool(use_rank), cnat(rank), cqvec(b), cq(alpha), cq(shape_obs), rank_ok, cbool(ok_val))
+    rule = probe_rank_rule()
+    rank_ok, model_rank = "true", cnat(0)
+    if fam in ("gmrf", "reggmrf"):
+        pdim = 2 if spec.get("two_d") else 1
+        model_rank = "(gmrf_code_rank %s %s %s %s %s)" % (rule, bc_coq(spec["bc"]), cnat(spec["order"]), cnat(pdim), cnat(n))
+        rank_ok = "check_rank %s %s %s %s %s %s" % (rule, bc_coq(spec["bc"]), cnat(spec["order"]), cnat(pdim), cnat(n), cnat(rank))
+    expr = "check_shape %s %s %s %s %s && %s && %s" % (lik_kind(fam), model_rank, cqvec(b), cq(alpha), cq(shape_obs), rank_ok, cbool(ok_val))
     cases.append(Case(expr=expr, meta=dict(meta, part="shape"), cell=cell + "/shape", kind="EXACT", impl_fail=fail, signature=sig))
     # --- rate
     fail, sig = None, ""
@@ -475,9 +507,14 @@ def sample_cases(ctx, spec, iface, cell):
     # --- the likelihood's dependence on the hyper-parameter: model formula (R) vs the implementation's likelihood.logd
     form = None
     if fam == "gmrf" and n <= 6:
-        form = "lik_gmrf (fun s => s) (gmrf_code_rank %s %s) 0 %s %s %s" % (bc_coq(spec["bc"]), cnat(n), crmat(P), crvec(Ax), crvec(b))
+        form = "lik_gmrf (fun s => s) (gmrf_code_rank %s %s %s %s %s) 0 %s %s %s" % (rule, bc_coq(spec["bc"]), cnat(spec["order"]), cnat(2 if spec.get("two_d") else 1), cnat(n), crmat(P), crvec(Ax), crvec(b))
     elif fam == "gaussian" and spec["dep"]["shape"] is None and spec["var"] in ("cov", "prec") and spec["dep"]["entries"][0] in (V(), Inv(V())):
         form = ("lik_gauss_cov (fun s => 1 / s) %s %s" if spec["var"] == "cov" else "lik_gauss_prec (fun s => s) %s %s") % (crvec(Ax), crvec(b))
+    elif fam == "gaussian" and spec["var"] == "prec" and spec["dep"]["shape"] == [n] and all(e == V() for e in spec["dep"]["entries"]) and n <= 6:
+        form = "lik_gauss_precvec (fun s => [%s]) %s %s" % ("; ".join(["s"] * n), crvec(Ax), crvec(b))
+    elif fam == "gaussian" and spec["var"] == "cov" and spec["dep"]["shape"] == [n, n] and n <= 5 and spec.get("cov_diag"):
+        rows = ["[" + "; ".join(("%s * (1 / s)" % cr(Fraction(spec["cov_diag"][i]))) if i == j else "0" for j in range(n)) + "]" for i in range(n)]
+        form = "lik_gauss_covdiag (fun s => [%s]) %s %s" % ("; ".join(rows), crvec(Ax), crvec(b))
     if form:
         s1, s2 = ctx.rng.choice([(2, 1), (4, 1), (3, 2), (Fraction(1, 2), 2), (4, Fraction(1, 2))])
         with QUIET:
@@ -526,7 +563,7 @@ def gen_sample_specs(ctx):
                     else:
                         diag = [Fraction(rng.choice([1, 2, 4, 8]), rng.choice([1, 2, 4])) for _ in range(m)]
                         ent = [Mul(Cn(diag[i]), Inv(V())) if i == j else Cn(0) for i in range(m) for j in range(m)]
-                        spec.update(var="cov", dep=array_dep(ent, (m, m)) if m > 1 else scalar_dep(Mul(Cn(diag[0]), Inv(V()))))
+                        spec.update(var="cov", dep=array_dep(ent, (m, m)) if m > 1 else scalar_dep(Mul(Cn(diag[0]), Inv(V()))), cov_diag=[str(d) for d in diag])
                     zeros = rep % 2 == 1
                     spec["data"] = vec(m, zeros)
                     if route == "joint":
@@ -574,6 +611,33 @@ def gen_sample_specs(ctx):
                         else:
                             spec["mean"] = vec(m) if rep % 2 == 0 else [str(Fraction(0))] * m
                         out.append((spec, iface, "gmrf/%s/o%d/%s/%s/%s" % (bc, order, "2d" if two_d else "1d", route, iface)))
+    # dyadic scale sweep: data and mean times 2^k, beta times 2^(2k) (everything homogeneous; comparisons are relative)
+    for k in (-12, 12):
+        sc, sc2 = Fraction(2) ** k, Fraction(2) ** (2 * k)
+        for iface in ["exp", "legacy"]:
+            for fam, extra in [("gaussian", {"var": "prec", "dep": scalar_dep(V())}), ("gaussian", {"var": "cov", "dep": scalar_dep(Inv(V()))}),
+                               ("gmrf", {"var": "prec", "dep": scalar_dep(V()), "bc": "zero", "order": 1, "N": None, "two_d": False}),
+                               ("gmrf", {"var": "prec", "dep": scalar_dep(V()), "bc": "neumann", "order": 1, "N": None, "two_d": False})]:
+                m = rng.randint(2, 5)
+                pr = prior()
+                pr["beta"] = str(Fraction(pr["beta"]) * sc2)
+                spec = dict({"family": fam, "m": m, "prior": pr, "route": "direct", "data": [str(Fraction(x) * sc) for x in vec(m)],
+                             "mean": [str(Fraction(x) * sc) for x in vec(m)]}, **extra)
+                out.append((spec, iface, "%s/%s/scale2^%d/%s" % (fam, extra.get("bc", extra["var"]), k, iface)))
+    # aliasing / degenerate residual: data equal to the mean (rate = beta exactly), also as the very same array values
+    for iface in ["exp", "legacy"]:
+        m = 4
+        v0 = vec(m)
+        out.append(({"family": "gaussian", "m": m, "prior": prior(), "route": "direct", "var": "prec", "dep": scalar_dep(V()), "data": v0, "mean": list(v0)},
+                    iface, "gaussian/prec_id/zero-residual/" + iface))
+        out.append(({"family": "gmrf", "m": m, "N": None, "two_d": False, "bc": "periodic", "order": 1, "var": "prec", "dep": scalar_dep(V()), "prior": prior(),
+                     "route": "direct", "data": ["3"] * m, "mean": ["0"] * m}, iface, "gmrf/periodic/o1/constant-data/" + iface))
+    # smallest fields (periodic stencils wider than the grid: fixes/C20_periodic_accumulate.diff changes these operators)
+    for bc in ["periodic", "neumann", "zero"]:
+        for order, m in [(0, 2), (1, 2), (2, 3), (1, 3), (2, 4)]:
+            for iface in ["exp", "legacy"]:
+                out.append(({"family": "gmrf", "m": m, "N": None, "two_d": False, "bc": bc, "order": order, "var": "prec", "dep": scalar_dep(V()),
+                             "prior": prior(), "route": "direct", "data": vec(m), "mean": ["0"] * m}, iface, "gmrf/%s/o%d/n%d/%s" % (bc, order, m, iface)))
     # regularized (implicit priors have no density of their own: correspondence of (shape, rate) only)
     for fam, var, dep in [("reggaussian", "cov", scalar_dep(Inv(V()))), ("reggaussian", "prec", scalar_dep(V())), ("reggmrf", "prec", scalar_dep(V()))]:
         for iface in ["exp", "legacy"]:
@@ -612,7 +676,7 @@ def dependence_catalogue():
     # around the identity-probe tolerance (rtol 1e-5, atol 1e-8): clear accept / clear reject
     for lab, c in [("s*(1+2^-18)", 1 + F(1, 2 ** 18)), ("s*(1+2^-16)", 1 + F(1, 2 ** 16)), ("s*(1-2^-18)", 1 - F(1, 2 ** 18)), ("s*(1-2^-15)", 1 - F(1, 2 ** 15))]:
         cat.append((lab, "prec", scalar_dep(Mul(Cn(c), V()))))
-    for lab, bb in [("s+2^-20", F(1, 2 ** 20)), ("s+2^-14", F(1, 2 ** 14)), ("s-2^-18", -F(1, 2 ** 18))]:
+    for lab, bb in [("s+2^-20", F(1, 2 ** 20)), ("s+2^-14", F(1, 2 ** 14)), ("s-2^-18", -F(1, 2 ** 18)), ("s+2^-16", F(1, 2 ** 16)), ("s-2^-16", -F(1, 2 ** 16))]:
         cat.append((lab, "prec", scalar_dep(Add(V(), Cn(bb)))))
     # around the reciprocal-probe tolerance (rel 1e-9)
     for lab, c in [("(1+2^-34)/s", 1 + F(1, 2 ** 34)), ("(1+2^-26)/s", 1 + F(1, 2 ** 26)), ("(1-2^-33)/s", 1 - F(1, 2 ** 33))]:
@@ -744,6 +808,11 @@ def validation_case(ctx, spec, iface, cell):
     try:
         target = build_target(spec)
     except Exception as e:
+        if spec["prior"].get("decl") == "zero_d" and isinstance(e, IndexError):
+            # a scalar Gamma declared with 0-d array parameters cannot even be put into a Posterior (force_ndarray leaves 0-d
+            # arrays alone and Distribution.dim raises): refused upstream of the samplers, nothing is sampled -- the property's
+            # letter holds; recorded so that a change of this behaviour shows up
+            return [Case(expr="true", meta=dict(meta, note="refused upstream: %s" % type(e).__name__), cell=cell, kind="DECISION", trivial=True)]
         ctx.note("validation spec could not be built (%s): %r" % (cell, e))
         return []
     try:
@@ -826,6 +895,8 @@ def gen_validation_specs(ctx):
         # wrong argument name, several occurrences, non-scalar Gamma, other priors, other likelihoods, non-Posterior, other preset
         out.append((gspec("gaussian", "cov", rec, argname="d"), iface, "validate/wrong-name/" + iface))
         out.append((gspec("gmrf", "prec", idd, argname="t"), iface, "validate/wrong-name-gmrf/" + iface))
+        out.append((gspec("gaussian", "prec", idd, argname="ss"), iface, "validate/wrong-name-superstring/" + iface))
+        out.append((gspec("gaussian", "cov", rec, argname="s_"), iface, "validate/wrong-name-superstring2/" + iface))
         out.append((gspec("gaussian", "cov", rec, more_deps={"mean": array_dep([V(), V()], (2,))}, m=2), iface, "validate/several-occurrences/" + iface))
         out.append((gspec("gaussian", "prec", idd, more_deps={"mean": array_dep([Mul(Cn(2), V())] * 3, (3,))}, m=3), iface, "validate/several-occurrences-prec/" + iface))
         out.append((gspec("gaussian", "cov", rec, prior=base_prior(dim=2)), iface, "validate/gamma-dim2/" + iface))
@@ -855,6 +926,8 @@ def gen_validation_specs(ctx):
         ab = {"alpha": "2", "beta": "1"} if decl == "py_int" else {}
         for iface in ["exp", "legacy"]:
             out.append((gspec("gaussian", "cov", rec, m=1, prior=base_prior(decl=decl, **ab)), iface, "validate/gamma-decl/data-len1/%s/%s" % (decl, iface)))
+    for iface in ["exp", "legacy"]:
+        out.append((gspec("gaussian", "cov", rec, prior=base_prior(decl="zero_d")), iface, "validate/gamma-decl/zero_d/" + iface))
     out.append((gspec("gaussian", "cov", rec, posterior=False, nonposterior="likdist"), "exp", "validate/non-posterior/exp"))
     out.append((gspec("gaussian", "cov", rec, posterior=False, nonposterior="prior"), "exp", "validate/non-posterior-gamma/exp"))
     # ConjugateApprox
@@ -948,6 +1021,19 @@ def approx_cases(ctx):
             expr = "check_approx %s %s %s %s %s %s %s && %s" % (cqmat(D), cqvec(x), cqvec(w), cq(alpha), cq(beta), cq(ga[0]),
                                                                cq(Fraction(1) / frac(ga[1])), cbool(ok_val))
             cases.append(Case(expr=expr, meta=meta, cell="approx/%s/%s" % (bc, iface), kind="EXACT"))
+            if n <= 6:
+                # the R-valued formulas of the ConjugateApprox theorems, computed by the model itself (no certificate)
+                robs = Fraction(1) / frac(ga[1])
+                e1 = "(Rabs (approx_rate_R approx_delta %s %s %s - %s) <= %s)%%R" % (crmat(D), crvec(x), cr(beta), cr(robs), cr(robs * Fraction(1, 10 ** 9)))
+                cases.append(Case(expr=e1, meta=dict(meta, part="rate-R"), cell="approx/%s/%s/rate-R" % (bc, iface), kind="ENCLOSURE", tac=ENC_TAC))
+                s1, s2 = rng.choice([(2, 1), (4, 1), (3, Fraction(1, 2))])
+                with QUIET:
+                    l1 = float(np.ravel(np.asarray(T.likelihood.logd(np.array([float(s1)])), dtype=float))[0])
+                    l2 = float(np.ravel(np.asarray(T.likelihood.logd(np.array([float(s2)])), dtype=float))[0])
+                form = "lik_lmrf (fun s => 1 / s) %s %s" % (crmat(D), crvec(x))
+                tol = Fraction(1, 10 ** 9) * (1 + frac(abs(l1)) + frac(abs(l2)))
+                e2 = "(Rabs (%s %s - %s %s - %s) <= %s)%%R" % (form, cr(s1), form, cr(s2), cr(l1 - l2), cr(tol))
+                cases.append(Case(expr=e2, meta=dict(meta, part="lmrf-form"), cell="approx/%s/%s/lmrf-form" % (bc, iface), kind="ENCLOSURE", tac=ENC_TAC))
     return cases
 
 
@@ -1033,6 +1119,36 @@ def direct_cases(ctx):
     return cases
 
 
+def history_cases(ctx):
+    """Gibbs keeps ONE Conjugate object per block and assigns it a new target on every sweep: feed one sampler object a
+    sequence of targets of different families/sizes (revisiting the first) and compare every draw; then re-draw from the
+    earlier sampler objects kept alive (their targets must not have been disturbed)."""
+    import cuqi.experimental.mcmc as M
+    rng = ctx.rng
+    specs = [s for s, i, c in gen_sample_specs(ctx) if i == "exp" and s["family"] in ("gaussian", "gmrf")]
+    cases = []
+    for h in range(ctx.n(3, 12)):
+        seq = [specs[rng.randrange(len(specs))] for _ in range(3)]
+        seq.append(seq[0])
+        with QUIET:
+            smp = M.Conjugate()
+        for j, sp in enumerate(seq):
+            cases += sample_cases(ctx, sp, "exp", "history/reuse/step%d" % j, reuse=smp)
+        # keep-alive: independent sampler objects built first, drawn from after all the others were used
+        keep = [(sp, construct("exp", build_target(sp)), construct("legacy", build_target(sp))) for sp in seq[:2]]
+        for sp, se, sl in keep:
+            for iface, so in (("exp", se), ("legacy", sl)):
+                first = draw(iface, so)[1]
+                for other in keep:
+                    draw("exp", other[1]); draw("legacy", other[2])
+                again = draw(iface, so)[1]
+                ok = first is not None and first == again
+                cases.append(Case(expr=cbool(ok), meta={"op": "keepalive", "iface": iface, "spec": sp}, cell="history/keep-alive/" + iface, kind="DECISION",
+                                  impl_fail=None if ok else "a sampler object draws from a different Gamma (%s then %s) after other samplers were used" % (first, again),
+                                  signature="" if ok else "%s|draw-depends-on-other-samplers" % site(iface)))
+    return cases
+
+
 # ------------------------------------------------------------------------------------------------------
 # run
 # ------------------------------------------------------------------------------------------------------
@@ -1041,6 +1157,7 @@ def run(ctx):
     cases = []
     for spec, iface, cell in gen_sample_specs(ctx):
         cases += sample_cases(ctx, spec, iface, cell)
+    cases += history_cases(ctx)
     for spec, iface, cell in gen_validation_specs(ctx):
         cases += validation_case(ctx, spec, iface, cell)
     cases += probe_cases(ctx)
